@@ -613,6 +613,28 @@ func hijackThenReuse(run *kit.Run) {
 			_ = conn.Close()
 		}
 	})
+	// taking the connection over is possible at any point of the response (net/http allows it after the header and
+	// after body bytes): the call is delegated whenever the underlying writer offers it
+	for _, late := range []string{"after-header", "after-body", "after-flush-less-writes"} {
+		late := late
+		f.MustHandle("GET", "/hijack/"+late, func(c fox.Context) {
+			switch late {
+			case "after-header":
+				c.Writer().WriteHeader(200)
+			case "after-body":
+				_, _ = c.Writer().Write([]byte("hello"))
+			default:
+				_, _ = c.Writer().WriteString("he")
+				_, _ = c.Writer().Write([]byte("llo"))
+			}
+			conn, _, err := c.Writer().Hijack()
+			if err != nil {
+				run.Violate("hijack-late|"+late, fmt.Sprintf("Hijack %s on an underlying writer that offers it returned %v instead of being delegated", late, err), nil)
+				return
+			}
+			_ = conn.Close()
+		})
+	}
 	f.MustHandle("GET", "/plain", func(c fox.Context) {
 		c.Writer().WriteHeader(201)
 		_, _ = c.Writer().Write([]byte("hello"))
@@ -629,6 +651,13 @@ func hijackThenReuse(run *kit.Run) {
 		run.Guard("hijack-reuse-panic", nil, func() { f.ServeHTTP(h, mkreq("/hijack")) })
 		if h.hijacked != 1 {
 			run.Violate("hijack-reuse|not-delegated", fmt.Sprintf("Hijack on an underlying writer that supports it was delegated %d times", h.hijacked), nil)
+		}
+		for _, late := range []string{"after-header", "after-body", "after-flush-less-writes"} {
+			hl := &hijackOK{under: &under{h: http.Header{}, limit: -1}}
+			run.Guard("hijack-late-panic", nil, func() { f.ServeHTTP(hl, mkreq("/hijack/"+late)) })
+			if hl.hijacked != 1 {
+				run.Violate("hijack-late|"+late+"|not-delegated", fmt.Sprintf("Hijack %s was delegated %d times to an underlying writer that offers it", late, hl.hijacked), nil)
+			}
 		}
 		for k := 0; k < 3; k++ {
 			u := &under{h: http.Header{}, limit: -1}
